@@ -129,6 +129,12 @@ func buildCall(gen string, r *schema.Resource, m *schema.Method, pos string, val
 			rep.Metadata = schema.Rich(m.Metadata)
 			t := int32(7)
 			rep.Total = &t
+			if pos == "reply-paging" && val != nil && !val.B {
+				rep.Total = nil // metadata without a paging block
+			}
+			if pos == "reply-elements" && val != nil && !val.B {
+				rep.Elements = []*schema.V{} // metadata with no elements at all
+			}
 		}
 	case m.Kind == "ACTION":
 		pt := ParamsType(m, gen)
@@ -264,6 +270,11 @@ func positions(gen string, r *schema.Resource, m *schema.Method, full bool) []ar
 		}
 		if m.Kind == "ACTION" && m.Return != nil {
 			ps = append(ps, argPos{"result", schema.Alphabet(m.Return, true)})
+		}
+		if m.Kind == "FINDER" && m.Metadata != nil {
+			b := schema.P(schema.Bool)
+			ps = append(ps, argPos{"reply-paging", []*schema.V{schema.VB(b, true).D("paging:present"), schema.VB(b, false).D("paging:absent")}},
+				argPos{"reply-elements", []*schema.V{schema.VB(b, true).D("elements:two"), schema.VB(b, false).D("elements:none")}})
 		}
 	case m.Name == "get":
 		ps = append(ps, argPos{"result", schema.Alphabet(r.Schema, true)})
